@@ -95,6 +95,15 @@ def kelvinIndex (dim : Nat) (s : List Char) : Option Nat :=
 def componentsOK (dim : Nat) (t : List (String × Nat)) : Bool :=
   t.all fun e => kelvinIndex dim (e.1.toList.drop 1) == some e.2
 
+/-- every simulation passes the Kelvin-Mandel factor of ITS material to the helper that rescales the shear components, and the helpers'
+default is that factor for the Kelvin-Mandel notation (seed C16_P changed the default to 1 and dropped the argument of one caller: each
+edit alone is invisible) -/
+theorem shear_factor_passed_by_every_simulation :
+    Gen.C16.coefPassed = [("Elastic", "self.material.coef"), ("HyperElastic", "self.material.coef"),
+      ("PhaseField", "self.phaseFieldModel.material.coef"), ("InElastic", "self.material.coef")] ∧
+    Gen.C16.coefDefaults = [("__Result_in_Strain_or_Stress_field", "np.sqrt(2)"), ("Result_strain_or_stress_field_e", "np.sqrt(2)")] := by
+  decide
+
 /-- Each stress / strain component name selects its own Kelvin–Mandel component (after the
 shear components have been divided by √2), in 2D and 3D. -/
 theorem strain_stress_components :
